@@ -33,8 +33,13 @@ DRUN = ("ensures with (s, out) = drun(view(self), input): Err iff s = Fail; Ok(r
         "pending unchanged (decoder lag is zero); append-only; terminates; no panic")
 
 
+RENAME_WHY = ("decoder.rs-local alias `Result<T>` renamed to `DResult<T>`: the assembled unit is a single module and lib.rs "
+              "uses std's two-parameter Result")
+
+
 def dec_fn(imp, fn, ovl, name, text, props=("C01", "C07", "C09")):
-    return VFn(DEC, [imp, "fn " + fn], ovl, list(props), text, rules=R, name=name)
+    return VFn(DEC, [imp, "fn " + fn], ovl, list(props), text, rules=R, name=name,
+               subs=[("N9", "Result<", "DResult<", RENAME_WHY)])
 
 
 EI = "impl /^impl<'this> Encoder<'this>/"
@@ -49,6 +54,14 @@ UNSAFE_COMPONENTS = ("N9", "unsafe { data.components() }", "data.components()",
 def w_fn(imp, fn, text, props=("C01", "C02", "C07", "C09"), subs=(), prefix="w_enc_", cls="Encoder"):
     return VFn(LIB, [imp, "fn " + fn], "%s%s.ovl" % (prefix, fn), list(props), text, rules=R, subs=subs,
                name="%s::%s" % (cls, fn))
+
+
+WDEC = ("ensures with (s, out) = drun(view(state), data) under the production limits 252/64008: Err iff s = Fail; "
+        "Ok => view(state') = s /\\ bytes' = bytes ++ out; pending unchanged; append-only; no panic")
+
+
+def d_fn(fn, text, subs=()):
+    return w_fn(DI, fn, text, props=("C01", "C07", "C09"), subs=subs, prefix="w_dec_", cls="Decoder")
 
 
 HCOBS = VerusUnit(
@@ -91,7 +104,7 @@ HCOBS = VerusUnit(
         VItem(DEC, ["struct InChunk"]),
         VItem(DEC, ["enum DecoderState"]),
         VItem(DEC, ["enum DecodingError"]),
-        VItem(DEC, ["type Result"]),
+        VItem(DEC, ["type Result"], subs=[("N9", "type Result<T>", "type DResult<T>", RENAME_WHY)]),
         VGhost("dec_state_spec.rs"),
         VImpl("impl InitialState", [dec_fn("impl /^impl InitialState/", "decode", "dec_initial_decode.ovl", "InitialState::decode", STEP)]),
         VImpl("impl BeforeChunk", [dec_fn("impl /^impl BeforeChunk/", "decode", "dec_before_decode.ovl", "BeforeChunk::decode", STEP)]),
@@ -126,7 +139,33 @@ HCOBS = VerusUnit(
             w_fn(EI, "finish", "requires inv; ensures returned bytes == sem(empty) = closed output ++ canonical encoding of the open "
                                "chunk; the encoder's placeholder is filled; frame"),
         ]),
+        VImpl("impl<'this> Decoder<'this>", [
+            d_fn("new_from_iovec", "ensures view = Initial; iovec moved in unchanged"),
+            d_fn("new", "ensures view = Initial, empty output"),
+            d_fn("decode", WDEC),
+            d_fn("decode_copy", WDEC),
+            d_fn("decode_anchored", WDEC, subs=[UNSAFE_COMPONENTS]),
+            d_fn("finish", "ensures Ok(iovec) <=> view == Before(insert = true); the output is returned unchanged; no panic"),
+        ]),
+        VGhost("lemmas_enc.rs"),
+        VGhost("theorems.rs"),
     ],
-    lemmas=[],
+    lemmas=[
+        VLemma("theorem_c01_round_trip", ["C01"], "forall x. drun(Initial, enc(x)) == (Before(insert=true), x): decoding the "
+               "canonical encoding yields x and ends in the accepting state (all x, production limits)"),
+        VLemma("lemma_round_trip", ["C01"], "round trip for all limits 0 < m0 <= 252, 0 < m1 <= 64008, generalised over chunk position"),
+        VLemma("theorem_split_compose", ["C01", "C02"], "meaning postconditions compose: feeding a then b == feeding a ++ b"),
+        VLemma("theorem_two_pieces", ["C01", "C02"], "fresh encoder, two pieces by any methods, finish => enc(a ++ b)"),
+        VLemma("theorem_decode_split", ["C01", "C07"], "drun(s, a ++ b) == drun(drun(s, a), b): decoder result independent of segmentation"),
+        VLemma("lemma_drun_concat", ["C01", "C07"], "concatenation lemma of the decoder automaton, all limits"),
+        VLemma("theorem_c02_no_stuff", ["C02"], "forall x. no FE FD at any position of enc(x)"),
+        VLemma("lemma_enc_no_stuff", ["C02"], "no_stuff(enc(x)) for all admissible limits; encoding starts with a byte < FD"),
+        VLemma("theorem_c02_length", ["C02"], "forall x. |enc(x)| <= |x| + 1 + 2 * ceil(|x| / 64008)"),
+        VLemma("lemma_enc_len", ["C02"], "|enc(x,max,m1,first)| <= |x| + hl(first) + 2 * fc(|x|,max,m1), all 0 < max <= m1"),
+        VLemma("theorem_c09_encoder_lag", ["C09"], "wf => |bytes| - header_start <= 2 + 64008, and the prefix before the header is stable"),
+        VLemma("theorem_c09_decoder_lag", ["C09"], "decoder registers no placeholder => everything produced is stable (lag 0)"),
+        VLemma("lemma_spk_trans", ["C09"], "stable-prefix frame is transitive (any number of calls / drains in between)"),
+        VLemma("lemma_spk_backfill", ["C09"], "backfilling a pending placeholder keeps every stable prefix"),
+    ],
     rlimit=50,
 )
